@@ -277,11 +277,25 @@ GroupVals(pairs, gs, g, items, acc, f, st) ==
              ELSE GroupVals(pairs, gs, g + 1, items,
                             IF IsUndef(R.r) THEN acc ELSE Append(acc, <<gs[g].key, R.r>>), f, R.st)
 
+\* literal keys over an absent context
+RECURSIVE GroupValsUndef(_, _, _, _, _, _)
+GroupValsUndef(pairs, gs, g, acc, f, st) ==
+    IF g > Len(gs) THEN Ok(Obj(ObjFromPairs(acc)), st)
+    ELSE LET R == Eval(pairs[gs[g].pair][2], Undef, f, st)
+         IN  IF R.x = "err" /\ Len(gs) >= 2 THEN Er("Any", Taint(R.st))
+             ELSE IF R.x # "ok" THEN R
+             ELSE GroupValsUndef(pairs, gs, g + 1, IF IsUndef(R.r) THEN acc ELSE Append(acc, <<gs[g].key, R.r>>), f, R.st)
+
 EvalPairsGroup(pairs, ctx, f, st) ==
-    LET items == IF IsArr(ctx) THEN ctx.v ELSE <<ctx>>
+    \* an absent context: what the members see is not decided by the statement.  With literal
+    \* keys only, the values are evaluated over the absent context (open: over a list holding null,
+    \* as the port does); computed keys over an absent context are left open altogether.
+    IF IsUndef(ctx) /\ (\E p \in 1..Len(pairs) : pairs[p][1].k # "String") THEN Top("grouping over a missing context", st)
+    ELSE
+    LET items == IF IsArr(ctx) THEN ctx.v ELSE IF IsUndef(ctx) THEN (IF st.md.group_undef_null THEN <<Null>> ELSE <<>>) ELSE <<ctx>>
         G == GroupKeys(pairs, 1, 1, items, <<>>, f, st)
     IN  IF G.x # "ok" THEN G
-        ELSE IF Len(G.gs) > 1 /\ (\E g \in 1..Len(G.gs) : TRUE) /\ FALSE THEN G
+        ELSE IF IsUndef(ctx) /\ ~st.md.group_undef_null THEN GroupValsUndef(pairs, G.gs, 1, <<>>, f, G.st)
         ELSE GroupVals(pairs, G.gs, 1, items, <<>>, f, G.st)
 
 \* ---- sorting (C13) ----
@@ -627,7 +641,7 @@ CallBuiltin(nm, args0, site, cx) ==
                         ELSE Ok(Arr(Arrayify(a[1]) \o Arrayify(a[2])), st)
     [] nm = "reverse" -> IF n # 1 THEN BadArgs(st) ELSE Ok(Arr(SeqReverse(arr1)), st)
     [] nm = "distinct" -> IF n # 1 THEN BadArgs(st)
-                          ELSE IF IsUndef(a[1]) THEN Ok(Undef, st)
+                          ELSE IF IsUndef(a[1]) THEN Top("$distinct of a missing value is open", st)
                           ELSE IF HasFn(a[1]) THEN Top("functions under $distinct", st)
                           ELSE IF ~IsArr(a[1]) THEN Ok(a[1], st)
                           ELSE Ok(Arr(DistinctSeq(arr1, 1, <<>>)), st)
@@ -662,7 +676,10 @@ CallBuiltin(nm, args0, site, cx) ==
                         ELSE LET r == NameOn(a[1], a[2].s, st.md) IN
                              IF IsUndef(r) THEN Top("$lookup of a missing member is open", st) ELSE Ok(r, st)
     [] nm = "spread" -> IF n # 1 THEN BadArgs(st)
-                        ELSE Ok(SeqValue(SpreadOf(a[1]), FALSE), IF MaxMembers(a[1]) >= 2 THEN Taint(st) ELSE st)
+                        ELSE IF ~(IsObj(a[1]) \/ IsArr(a[1])) THEN Ok(a[1], st)
+                        \* K3: one single-member object per member; a list (open: a one-item list as the item)
+                        ELSE Ok(IF st.md.hof_collapse THEN SeqValue(SpreadOf(a[1]), FALSE) ELSE Arr(SpreadOf(a[1])),
+                                IF MaxMembers(a[1]) >= 2 THEN Taint(st) ELSE st)
     [] nm = "merge" -> IF n # 1 THEN BadArgs(st)
                        ELSE IF \E i \in 1..Len(arr1) : ~IsObj(arr1[i]) THEN Er("Any", st)
                        ELSE Ok(MergeObjs(arr1, 1, Obj(<<>>)), st)
